@@ -30,7 +30,8 @@ def Seg.header (ck : Bool) (s : Seg) : Header :=
              checksum := asU16 ck (accBuild ck s.h.srcPort s.h.dstPort s.h.seq s.h.ack s.h.ctl s.h.wnd
                s.h.urg s.text s.src s.dst (s.text.length + 20)) }
 
-theorem build_ok (ck : Bool) (s : Seg) (hw : s.Wf) :
+/-- the builder succeeds on a representable segment, with this header value -/
+theorem c08_tcp_build_ok (ck : Bool) (s : Seg) (hw : s.Wf) :
     build ck s.h s.src s.dst s.text s.text.length = .ok (s.header ck) := by
   obtain ⟨h1, h2, h3, h4, h5, h6, h7, h8, h9, h10⟩ := hw
   have e1 : ¬ (s.text.length + 20 ≥ usizeLimit) := by unfold usizeLimit; omega
@@ -44,7 +45,7 @@ theorem c08_tcp_decode_encode (ck : Bool) (s : Seg) (hw : s.Wf) :
     (serialize (s.header ck)).length = 20 ∧
     fromBytes ck (serialize (s.header ck) ++ s.text) (20 + s.text.length) s.src s.dst
       = .ok (s.header ck) := by
-  refine ⟨build_ok ck s hw, by simp [serialize, be16, be32], ?_⟩
+  refine ⟨c08_tcp_build_ok ck s hw, by simp [serialize, be16, be32], ?_⟩
   obtain ⟨h1, h2, h3, h4, h5, h6, h7, h8, h9, h10⟩ := hw
   have hc := asU16_lt ck (accBuild ck s.h.srcPort s.h.dstPort s.h.seq s.h.ack s.h.ctl s.h.wnd
     s.h.urg s.text s.src s.dst (s.text.length + 20))
@@ -129,7 +130,7 @@ theorem c08_tcp_matches_rfc (h : Header) (hr : h.InRange) :
   all_goals first | trivial | (apply n2b_congr; omega)
 
 /-- the header the builder produces is in range, so its serialisation is the RFC packing … -/
-theorem header_inRange (ck : Bool) (s : Seg) (hw : s.Wf) : (s.header ck).InRange := by
+theorem c08_tcp_header_in_range (ck : Bool) (s : Seg) (hw : s.Wf) : (s.header ck).InRange := by
   obtain ⟨h1, h2, h3, h4, h5, h6, h7, h8, h9, h10⟩ := hw
   have hc := asU16_lt ck (accBuild ck s.h.srcPort s.h.dstPort s.h.seq s.h.ack s.h.ctl s.h.wnd
     s.h.urg s.text s.src s.dst (s.text.length + 20))
@@ -139,7 +140,7 @@ theorem header_inRange (ck : Bool) (s : Seg) (hw : s.Wf) : (s.header ck).InRange
 theorem c08_tcp_accepts_rfc (ck : Bool) (s : Seg) (hw : s.Wf) :
     fromBytes ck (Rfc.pack (s.header ck).rfc.fields ++ s.text) (20 + s.text.length) s.src s.dst
       = .ok (s.header ck) := by
-  rw [← c08_tcp_matches_rfc _ (header_inRange ck s hw)]
+  rw [← c08_tcp_matches_rfc _ (c08_tcp_header_in_range ck s hw)]
   exact (c08_tcp_decode_encode ck s hw).2.2
 
 theorem c08_tcp_rfc_width (h : Rfc.Tcp) : Rfc.totalWidth h.fields = 160 := by
